@@ -141,8 +141,6 @@ func singleModuleCallee(p *Prog, call *ssa.Call) *ssa.Function {
 	return cs[0]
 }
 
-
-
 // ParamDeps computes which parameters of its function the value v depends on
 // by data flow: operands are followed backwards through every instruction
 // (calls included: a result depends on all arguments), except that what is
